@@ -22,11 +22,13 @@ pub struct Ctl {
     pub counter: AtomicU32,
     /// callback invocation number (0-based) that must fail; -1 = none
     pub fail_at: AtomicI64,
+    /// optimise calls take this many microseconds (widens the window of in-flight merges)
+    pub slow_us: AtomicU32,
 }
 
 impl Ctl {
     pub fn new() -> Arc<Self> {
-        Arc::new(Ctl { counter: AtomicU32::new(0), fail_at: AtomicI64::new(-1) })
+        Arc::new(Ctl { counter: AtomicU32::new(0), fail_at: AtomicI64::new(-1), slow_us: AtomicU32::new(0) })
     }
     pub fn reset(&self, fail_at: i64) {
         self.counter.store(0, Ordering::SeqCst);
@@ -243,6 +245,10 @@ impl ObservationMetric<HA, HO> for HM {
         attrs.optimized += 1;
         obs.sort_by_key(|o| std::cmp::Reverse(o.attr().as_ref().map(|x| x.0).unwrap_or(i32::MIN)));
         obs.truncate(MAX_OBS);
+        let slow = self.ctl.slow_us.load(Ordering::Relaxed);
+        if slow > 0 {
+            std::thread::sleep(std::time::Duration::from_micros(slow as u64));
+        }
         self.ctl.tick("metric.optimize")?;
         if obs.iter().any(|o| o.attr().as_ref().map(|x| x.0 == 666).unwrap_or(false)) {
             return Err(anyhow!("optimise refuses observation 666"));
